@@ -146,11 +146,13 @@ def event_from_arrays(tid, n, ep, ec, mean, out, tin, fixed, eps, iters, out2=No
     return ev
 
 
-def kernel_events(ctx, pid, insts, modes=("unit", "ulp"), compare_spec=True, compare_absorbing=True):
+def kernel_events(ctx, pid, insts, modes=("unit", "ulp"), compare_spec=True, compare_absorbing=True, api=3):
     """Replay TLC behaviours into the real kernel; return rank events of what the code did.
     Where the specification determines the result (iters = 0) a disagreement with the model's
     final state is reported directly."""
     from tsdate import util
+
+    from . import build, harness
     events, meta = [], {}
     for i, inst in enumerate(insts):
         for mode in modes:
@@ -162,6 +164,30 @@ def kernel_events(ctx, pid, insts, modes=("unit", "ulp"), compare_spec=True, com
             try:
                 got = util._constrain_ages(t, fixed, ep, ec, eps, iters)
                 got2 = util._constrain_ages(got, fixed, ep, ec, eps, iters)
+                if api and (i % api == 0):
+                    # the public entry point on a tree sequence realising the DAG; samples carry
+                    # extra flag bits (as tsinfer's historical samples do) on every other instance
+                    n = len(t)
+                    ts = build.dag_ts(n, list(zip(ep.tolist(), ec.tolist())), list(range(n)),
+                                      np.flatnonzero(fixed).tolist())
+                    if (i // api) % 2:
+                        tb = ts.dump_tables()
+                        fl = tb.nodes.flags
+                        fl[fixed] |= (1 << 20)
+                        tb.nodes.flags = fl
+                        ts = tb.tree_sequence()
+                    if not (np.array_equal(ts.edges_parent, ep) and np.array_equal(ts.edges_child, ec)):
+                        raise harness.MachineryError("tskit sorted the DAG's edges differently from Constrain.tla")
+                    got_api = util.constrain_ages(ts, t, eps, iters)
+                    ctx.count("api_replays")
+                    if not np.array_equal(got_api, got):
+                        ctx.violation(f"{pid}/kernel/constrain_ages-differs-from-kernel", {"inst": inst, "mode": mode},
+                                      f"constrain_ages(ts,..) gives {got_api.tolist()} but the kernel on the same "
+                                      f"arrays gives {got.tolist()} (sample flags {ts.nodes_flags.tolist()})",
+                                      subcheck="kernel")
+                        got = got_api
+            except harness.MachineryError:
+                raise
             except Exception as ex:  # noqa: BLE001
                 ctx.violation(f"{pid}/kernel/{type(ex).__name__}", {"inst": inst, "mode": mode},
                               f"_constrain_ages raised {type(ex).__name__}: {ex}", subcheck="kernel")
@@ -308,4 +334,5 @@ def default_corpus(ctx, big=False):
     q = ctx.quick
     corpus = inputs.contemporaneous(ctx.seed, k=3 if q else 10) + inputs.polytomies(ctx.seed, k=1 if q else 3) \
         + inputs.historical(ctx.seed, k=1 if q else 3) + inputs.internal_samples(ctx.seed, k=1 if q else 3)
+    corpus += [inputs.flagged(c) for c in corpus if "historical" in c.tags][: 2 if q else 6]
     return corpus
